@@ -566,7 +566,11 @@ def evaluate(ctx, histories, label, fix=True, register_cases=True, compare=True)
                 if s['res'][1] != t[1]:
                     ctx.drift('HardwareSetup error class vs QP.C18.step', describe(op), s['res'][1], t[1])
                 if s['res'][1] not in ('program_overwrite',) and s['state'] != s['prev']:
-                    violations.append((hi, i, 'call raised %s but changed the state: %s' % (s['res'][1], describe(op))))
+                    # the property is silent about raising calls: a correspondence difference, not a violation;
+                    # the states after later normally-returning calls are still judged
+                    ctx.drift('raising call changed the HardwareSetup state (the model leaves it alone)',
+                              describe(op), _diff(s['state'], s['prev']), 'unchanged')
+                    in_sync = False
             else:
                 ctx.drift('HardwareSetup outcome vs QP.C18.step', describe(op),
                           str(s['res']), 'ok' if m_ok else t[1])
